@@ -173,11 +173,12 @@ Definition ctype_name (t : ctype) : list N :=
 (* p6 flags.  #: o x X a A e E f F g G, "for other conversions, the behavior is undefined";
    0: d i o u x X a A e E f F g G, "for other conversions, the behavior is undefined";
    ': the decimal conversions i d u f F g G, "for other conversions the behavior is undefined" (POSIX);
+   glibc >= 2.35, printf(3): m prints strerrorname_np(errno) "in the alternate form", so # is defined on m;
    - + space I: no restriction stated;  n: "if the conversion specification includes any flags, a field width,
    or a precision, the behavior is undefined";  %: "the complete conversion specification shall be %%". *)
 Definition flag_allowed (c f : N) : bool :=
   if (c =? ch "n")%N || (c =? ch "%")%N then false
-  else if (f =? ch "#")%N then mem c (chars "oxXaAeEfFgG")
+  else if (f =? ch "#")%N then mem c (chars "oxXaAeEfFgG") || (c =? ch "m")%N
   else if (f =? ch "0")%N then mem c (chars "diouxXaAeEfFgG")
   else if (f =? ch "'")%N then mem c (chars "idufFgG")
   else true.
